@@ -6,8 +6,9 @@
 //!   (`Context::try_select`); a timer or disconnect wake-up re-selects among all ready arms.
 //! * `bounded(0)`: `send` hands the message to a receiver that is already blocked and returns at
 //!   once; otherwise it publishes an offer and blocks until a receiver takes it.
-//! * last receiver dropped: buffered messages are dropped, senders get `Disconnected`; last sender
-//!   dropped: buffered messages stay receivable, then `RecvError`.
+//! * last receiver dropped: senders get `Disconnected`; buffered messages are discarded at once only
+//!   by the unbounded flavour (bounded / rendezvous keep them until the channel is freed); last
+//!   sender dropped: buffered messages stay receivable, then `RecvError`.
 //! * `tick(d)`: ready iff `now >= delivery`; on receipt `delivery = now + d`.
 
 use crate::kernel::{self, Shared};
@@ -382,12 +383,17 @@ impl<T> Drop for Receiver<T> {
             if last {
                 kernel::point();
             }
+            // crossbeam 0.5.17: only the unbounded (list) flavour discards buffered messages when
+            // the last receiver goes away; the bounded (array) and rendezvous flavours keep them
+            // until the channel itself is freed (checked against the real crate by realcheck)
             let dropped = ch.st.with(|s| {
                 s.receivers -= 1;
                 if s.receivers == 0 {
-                    let mut v: Vec<T> = s.q.drain(..).collect();
-                    v.extend(s.handoff.drain(..));
-                    Some(v)
+                    if s.cap.is_none() {
+                        Some(s.q.drain(..).collect::<Vec<T>>())
+                    } else {
+                        Some(Vec::new())
+                    }
                 } else {
                     None
                 }
